@@ -104,6 +104,8 @@ pub fn main(table: &[GrammarEntry]) {
             }
         });
     }
+    // user functions may run a nested parse: any rule of any grammar of this crate
+    let _ = crate::NESTED_TARGETS.set(table.iter().flat_map(|g| g.rules.iter().map(|r| r.parse)).take(64).collect());
     // entries: leak a static copy of the table description so the worker thread can own it
     let table_ref: &'static [GrammarEntry] = unsafe_static(table);
     let args = Arc::new(args);
